@@ -4,12 +4,15 @@ import Ccp.Proofs.Edit
 
 Property theorems only; helper lemmas and the invariants live in `Ccp.Proofs.Edit`:
 
-* `FreshInv s` := `s.dirty = false → s.tree = parse s.cfg s.texts ∧ s.texts = s.tree.texts`
-  (a state without uncommitted change holds the tree of a from-scratch parse of its texts);
+* `FreshInv s` := `s.dirty = false → s.tree = parse s.cfg s.texts ∧ s.texts = s.tree.texts ∧
+  s.items = committedItems s.tree` (a state without uncommitted change holds the tree of a
+  from-scratch parse of its texts, and the list holds exactly the tree's objects: the
+  `k`-th element is the object with line number `k`);
 * `AutoInv s` := `s.auto = true → s.dirty = false ∧ s.stale = false`;
 * `Forest` is the C03 vocabulary (`Ccp.Proofs.TreeForest`).
 
-The state machine is `Ccp.Model.Edit` (`S`, `Op`, `step`, `run`, `commit`, `init`).  A tree
+The state machine is `Ccp.Model.Edit` (`S`, `Op`, `step`, `run`, `commit`, `init`); a state
+holds a list of items (text + identity) and `s.texts` is the list of their texts.  A tree
 `T` is the triple texts / parent index per line / keep flags; line numbers are positions
 `0..n-1` and child lists are derived from the parent indices, so `tree = parse cfg texts`
 is equality of texts, line numbers, parent links and child lists at once.  `stale` is the
@@ -55,12 +58,21 @@ theorem bootstrap_drops_only_blank (cfg : Cfg) (ls : List Str) :
 
 /-- **After `commit` the tree is that of a fresh parse**, for every state whatsoever (any
 texts, any stale tree, any flags): the committed tree equals `parse` of the committed
-texts, the texts are the tree's, and both flags are cleared. -/
+texts, the texts are the tree's, the list holds exactly the tree's objects with line
+numbers `0..n-1` in order, and both flags are cleared. -/
 theorem commit_is_fresh_parse (s : S) :
     (commit s).tree = parse s.cfg (commit s).texts ∧
     (commit s).texts = (commit s).tree.texts ∧
+    (commit s).items = committedItems (commit s).tree ∧
     (commit s).dirty = false ∧ (commit s).stale = false :=
-  ⟨(commit_fresh s).1, (commit_fresh s).2, rfl, rfl⟩
+  ⟨(commit_fresh s).1, (commit_fresh s).2.1, rfl, rfl, rfl⟩
+
+/-- The objects of a committed tree: their texts are the tree's texts and their line
+numbers (identities) are `0, 1, …, n-1` in list order. -/
+theorem committed_line_numbers (t : T) :
+    (committedItems t).map Item.text = t.texts ∧
+    (committedItems t).map Item.id = (List.range t.texts.length).map some :=
+  ⟨committedItems_texts t, committedItems_ids t⟩
 
 /-- **Committing again changes nothing.** -/
 theorem commit_idempotent (s : S) : commit (commit s) = commit s := Ccp.Edit.commit_idempotent s
@@ -91,11 +103,13 @@ theorem step_keeps_options (s : S) (op : Op) :
 
 /-- **Every history**: whatever sequence of operations is run from whatever initial
 config, a reached state that has no uncommitted change holds exactly the tree a
-from-scratch parse of its current texts (with the original options) yields, and its
-texts are the tree's texts. -/
+from-scratch parse of its current texts (with the original options) yields, its texts
+are the tree's texts and its objects carry the line numbers `0..n-1` in order. -/
 theorem run_committed_fresh (cfg : Cfg) (auto : Bool) (width : Nat) (ls : List Str) (ops : List Op) :
     let s := run (init cfg auto width ls) ops
-    s.cfg = cfg ∧ (s.dirty = false → s.tree = parse cfg s.texts ∧ s.texts = s.tree.texts) := by
+    s.cfg = cfg ∧
+    (s.dirty = false →
+      s.tree = parse cfg s.texts ∧ s.texts = s.tree.texts ∧ s.items = committedItems s.tree) := by
   intro s
   have hc : s.cfg = cfg := (run_frame (init cfg auto width ls) ops).1
   refine ⟨hc, fun hd => ?_⟩
@@ -113,7 +127,7 @@ theorem auto_commit_always_fresh (cfg : Cfg) (width : Nat) (ls : List Str) (ops 
   have ha : s.auto = true := (run_frame (init cfg true width ls) ops).2.1
   have h1 := run_autoInv _ ops (init_auto cfg true width ls) ha
   have h2 := (run_committed_fresh cfg true width ls ops).2 h1.1
-  exact ⟨h1.1, h1.2, h2.1, h2.2⟩
+  exact ⟨h1.1, h1.2, h2.1, h2.2.1⟩
 
 /-- **With auto-commit off (or on), directly after an explicit `commit`** at the end of
 any history the tree is that of a fresh parse. -/
@@ -125,7 +139,7 @@ theorem explicit_commit_fresh (cfg : Cfg) (auto : Bool) (width : Nat) (ls : List
     simp only [s, run_append]; rfl
   have hd : s.dirty = false := by rw [hs]; rfl
   have h2 := (run_committed_fresh cfg auto width ls (ops ++ [.commit])).2 hd
-  exact ⟨hd, by rw [hs]; rfl, h2.1, h2.2⟩
+  exact ⟨hd, by rw [hs]; rfl, h2.1, h2.2.1⟩
 
 /-- Every reached state without uncommitted change carries a forest (C03's `Forest`):
 one parent index per line and no parent after its child. -/
